@@ -82,6 +82,8 @@ def _parse(s):
         return Ty("list", name=s[5:])
     if s.startswith("dict:"):
         return Ty("dict", name=s[5:])
+    if s.startswith("fnconst:"):
+        return Ty("fnconst", name=s[8:])
     if s.startswith("gen:"):
         return Ty("gen", name=s[4:])
     if s in ("int", "bool", "str", "val", "date", "num", "intinf", "fn", "none", "seq", "real", "rec", "nat"):
